@@ -120,16 +120,16 @@ func readEverything(data []byte) {
 }
 
 // Harness_C18_file_footer: arbitrary footer position fields (checksum repaired).
-// bounds: 4 base tables (unaligned / aligned / with log section / sha256; 3 refs, block size 64 or 96); one of the five 64-bit position fields of the footer is arbitrary in its low 16 bits (thorough: in all 64 bits)
+// bounds: 4 base tables (unaligned / aligned / with log section / sha256; 3 refs, block size 64 or 96); one of the five 64-bit position fields of the footer is arbitrary in its low 8 bits (thorough: low 24 bits); larger values only lead beyond the end of these files
 // covers: opened
 func Harness_C18_file_footer() {
 	data := hostileBase(VerifChoose(4))
 	version := int(data[4])
 	foot := len(data) - footerSize(version) + headerSize(version)
 	f := VerifChoose(5)
-	lo := 6 // quick: the low 16 bits of one field
+	lo := 7 // quick: the low 8 bits of one field (every position of these small files below 256)
 	if VerifTier() > 0 {
-		lo = 0 // thorough: all 64 bits
+		lo = 5 // thorough: the low 24 bits
 	}
 	for i := lo; i < 8; i++ {
 		data[foot+8*f+i] = VerifU8()
@@ -175,7 +175,11 @@ func Harness_C18_file_bytes() {
 		} else {
 			p = body - 1 - VerifIntRange(0, 11)
 		}
-		if p >= 0 && p < body {
+		// positions inside a log block's deflate stream are left alone
+		// (hostile deflate streams are outside reach, see DESIGN.md)
+		fo := len(data) - footerSize(version) + headerSize(version)
+		logOff := int(binary.BigEndian.Uint64(data[fo+24:]))
+		if p >= 0 && p < body && (logOff == 0 || p < logOff+4) {
 			data[p] = VerifU8()
 		}
 	case 2: // block length field + restart count of the first block
